@@ -4,6 +4,12 @@ import json, os
 V = os.path.dirname(os.path.dirname(os.path.abspath(__file__)))
 
 CLAIMED = {
+ "C17": {
+  "text": "TLC enumerates every list of <= 5 (quick) / 6 (thorough) value kinds with repetitions and checks that the TLA+ transcription of sort+dedup+description_rec equals the declarative set-based phrase DescSpec and is invariant under adjacent swaps; every enumerated list, all 256 subsets in random permutations with repetitions and random longer lists are executed on the real value_kinds_description_json and each (input, output) line is validated by TLC against DescSpec.",
+  "note": "Bounded: lists up to length 5/6 exhaustively, random lists up to 12/14. Trusted: TLC string concatenation, the Json module.",
+  "technique": "TLA+ definition of the phrase (set-based spec + transcription) checked by TLC; exhaustive spec->impl replay and impl->spec trace validation",
+  "design_ref": "DESIGN.md section 5 (C17)",
+ },
  "C19": {
   "text": "TLC explores the DPointer state machine (push_key/push_index over the linked-list representation of src/value.rs) exhaustively for all paths of <= 6 (quick) / 8 (thorough) steps and checks the refinement invariant to the abstract path; every explored path is replayed through the real ValuePointerRef and the four observations after every push are validated against the same TLA+ definitions by TLC trace validation, plus seeded random long paths.",
   "note": "Bounded: paths of <= 6/8 steps exhaustively, random paths up to 40/200 steps. Trusted: TLC, the Json module, derived Debug of the owned pointer components.",
